@@ -103,7 +103,8 @@ def main(pid, repo="/repo", run=None, verbose=True):
                 bad += 1
                 verdict = "ANALYSIS-ERROR %s" % r["lines"]
         elif expect == "fire":
-            hit = r["code"] == 1 and (not v.get("rule") or any(v["rule"] in x for x in r["rules"]))
+            want_rule = v.get("rule") if pid == v["props"][0] else None
+            hit = r["code"] == 1 and (not want_rule or any(want_rule in x for x in r["rules"]))
             if hit:
                 tally["fire_ok"] += 1
                 verdict = "ok fired %s" % r["rules"]
